@@ -181,10 +181,15 @@ def generate(tier, rng):
   # wave 3: argument forms, boundary values, reuse / caller-owned data, interleaving, dtypes, execution contexts
   for sub in XSUBS:
     for _ in range(1 if tier == 'quick' else 3):
-      yield {'kind': 'X', 'sub': sub, 'seed': rng.randrange(1, 2 ** 30), 'key': rng.choice([0, rng.randrange(2 ** 31)])}
+      yield {'kind': 'X', 'sub': sub, 'seed': rng.randrange(1, 2 ** 30), 'key': rng.choice([0, rng.randrange(2 ** 31)]),
+             'big': tier == 'thorough'}
   for ti, tr in enumerate(TREES):
     for _ in range(1 if tier == 'quick' else 3):
       yield {'kind': 'P', 'tree': ti, 'seed': rng.randrange(1, 2 ** 30), 'key': rng.randrange(2 ** 31)}
+  yield {'kind': 'Q', 'what': 'grid', 'nmax': 64, 'seed': rng.randrange(1, 2 ** 30)}
+  sizes = sorted(set(list(range(1, 67)) + [2 ** k + dlt for k in range(7, 31) for dlt in (-1, 0, 1) if 2 ** k + dlt <= 2 ** 30] +
+                     [1000, 3000, 5000, 10 ** 6, 10 ** 9] + ([256 * m + dlt for m in range(1, 17) for dlt in (-1, 0, 1)] if tier == 'thorough' else [])))
+  yield {'kind': 'Q', 'what': 'pad', 'sizes': sizes}
   for c in cfg_cases:
     yield c
 
@@ -460,12 +465,30 @@ def run_P(case):
 # --------------------------------------------------------------------------
 # wave 3 extras (judged by the oracle only): every check is a named boolean
 
-XSUBS = ['forms', 'boundary', 'reuse', 'interleave', 'dtypes', 'contexts', 'compose', 'order', 'magnitude']
+XSUBS = ['forms', 'boundary', 'reuse', 'interleave', 'dtypes', 'contexts', 'compose', 'order', 'magnitude',
+         'layout', 'containers', 'complex', 'fastpath', 'chunk']
 
 
 def _close(a, b, rtol=1e-6, atol=1e-6):
   a, b = np.asarray(a, np.float64), np.asarray(b, np.float64)
   return bool(a.shape == b.shape and np.all(np.abs(a - b) <= atol + rtol * np.abs(b)))
+
+
+_CONTAINER_TYPES = {}
+
+
+def _container_types():
+  if not _CONTAINER_TYPES:
+    import collections
+    from fedjax.core import dataclasses as fdc
+    NT = collections.namedtuple('NT', ['w', 'b'])
+
+    @fdc.dataclass
+    class DC:
+      w: object
+      b: object
+    _CONTAINER_TYPES.update(NT=NT, DC=DC)
+  return _CONTAINER_TYPES['NT'], _CONTAINER_TYPES['DC']
 
 
 def run_X(case):
@@ -670,6 +693,121 @@ def run_X(case):
     for sc in (1e-30, 1e30):
       guard(f'transform-scale-{sc:g}', lambda sc=sc: _close(np.asarray(wh.walsh_hadamard_transform(xj * np.float32(sc)), np.float64) / sc,
                                                             ref.astype(np.float64), rtol=1e-5, atol=1e-3))
+  elif sub == 'layout':
+    base = np.resize(xs, 32).reshape(4, 8).astype(np.float32)
+    wide = np.resize(xs, 64).reshape(4, 16).astype(np.float32)
+    ro = base.copy()
+    ro.setflags(write=False)
+    lay = {'fortran': np.asfortranarray(base), 'transposed': base.T, 'every-other-row': np.resize(xs, 64).reshape(8, 8)[::2],
+           'negative-stride': base[::-1, ::-1], 'column-slice': wide[:, 3:11], 'read-only': ro, 'zero-d': np.float32(3.0),
+           'jax-transposed': jnp.asarray(base).T, 'jax-slice': jnp.asarray(wide)[:, 3:11]}
+    for nm, a in lay.items():
+      def f(a=a):
+        snap = np.array(a, copy=True)
+        c = np.array(np.asarray(a), dtype=np.float32, order='C')
+        r, sh = wh.structured_rotation(a, key)
+        rc, shc = wh.structured_rotation(c, key)
+        b = wh.inverse_structured_rotation(r, key, sh)
+        return (_close(r, rc, 0, 0) and _close(sh, shc, 0, 0) and _close(b, c, atol=1e-4) and np.asarray(b).shape == c.shape and
+                bool(np.array_equal(np.asarray(a), snap)))
+      guard('rotation-' + nm, f)
+    v32 = np.resize(xs, 32).astype(np.float32)
+    for nm, a in {'stride-2': v32[::2], 'negative-stride': v32[:16][::-1], 'read-only': ro.reshape(-1)[:16], 'jax-strided': jnp.asarray(v32)[::2]}.items():
+      guard('transform-' + nm, lambda a=a: _as_ints(wh.walsh_hadamard_transform(a))[0] ==
+            [int(v) for v in ref_fwht(np.ascontiguousarray(np.asarray(a)).astype(np.int64))])
+    # byte-swapped dtypes are not asserted: jax itself rejects them on a cold jit cache (TypeError) and MISREADS them on a
+    # warm one (`jax.jit(lambda z: z + 0)` returns garbage for a '>f4' array after a float32 call) -- not fedjax code
+    tr = {'f': np.asfortranarray(base), 't': base.T, 's': wide[:, 3:11]}
+    def tree_layout():
+      ro_, sh_ = wh.structured_rotation_pytree(tr, key)
+      bk = wh.inverse_structured_rotation_pytree(ro_, key, sh_)
+      return all(_close(bk[k], np.ascontiguousarray(tr[k]), atol=1e-4) and np.asarray(bk[k]).shape == tr[k].shape for k in tr)
+    guard('tree-of-layouts', tree_layout)
+  elif sub == 'containers':
+    import haiku as hk
+    NT, DC = _container_types()
+    a, b3, c1 = xj[:5], xj[5:8].reshape(3, 1), xj[9:10]
+    trees = {'tuple': (a, b3), 'namedtuple': NT(a, b3), 'list': [a, [b3, c1]], 'none-subtree': {'a': a, 'b': None, 'c': (None, c1)},
+             'haiku-flatmap': hk.data_structures.to_immutable_dict({'m': {'w': a, 'b': c1}}), 'dataclass': DC(a, {'k': b3}),
+             'mixed': [NT(a, (b3,)), {'k': None, 'z': c1}, DC(c1, None)], 'bare-leaf': a, 'tuple-of-tuples': ((a,), ((b3,), c1))}
+    for nm, tr in trees.items():
+      def f(tr=tr):
+        ro_, sh_ = wh.structured_rotation_pytree(tr, key)
+        bk = wh.inverse_structured_rotation_pytree(ro_, key, sh_)
+        td = jax.tree_util.tree_structure(tr)
+        leaves_in, leaves_ro, leaves_bk = jax.tree_util.tree_leaves(tr), jax.tree_util.tree_leaves(ro_), jax.tree_util.tree_leaves(bk)
+        return (jax.tree_util.tree_structure(ro_) == td and jax.tree_util.tree_structure(bk) == td and
+                jax.tree_util.tree_structure(sh_) == td and len(leaves_ro) == len(leaves_in) and
+                all(_close(x, y, atol=1e-4) and np.asarray(x).shape == np.asarray(y).shape for x, y in zip(leaves_bk, leaves_in)) and
+                all(_close(np.sum(np.asarray(r, np.float64) ** 2), np.sum(np.asarray(x, np.float64) ** 2), rtol=1e-4)
+                    for r, x in zip(leaves_ro, leaves_in)) and
+                all([int(v) for v in np.asarray(s_).reshape(-1)] == list(np.asarray(x).shape) for s_, x in zip(jax.tree_util.tree_leaves(sh_), leaves_in)))
+      guard(nm, f)
+  elif sub == 'complex':
+    xc = (xs[:16] + 1j * xs[16:32]).astype(np.complex64)
+    def cw():
+      y = np.asarray(wh.walsh_hadamard_transform(jnp.asarray(xc)))
+      return y.dtype == np.complex64 and _close(y.real, ref_fwht(xs[:16].astype(np.float64)), 0, 0) and \
+          _close(y.imag, ref_fwht(xs[16:32].astype(np.float64)), 0, 0)
+    guard('transform-is-linear-over-complex', cw)
+    def cr():
+      # either rejected by both directions, or the inverse undoes the forward rotation and the norm is kept
+      try:
+        r, sh = wh.structured_rotation(jnp.asarray(xc[:11]), key)
+      except TypeError:
+        return True
+      b = np.asarray(wh.inverse_structured_rotation(r, key, sh))
+      return (_close(np.sum(np.abs(np.asarray(r)) ** 2), np.sum(np.abs(xc[:11]) ** 2), rtol=1e-4) and
+              _close(b.real, xc[:11].real, atol=1e-4) and _close(b.imag, xc[:11].imag, atol=1e-4))
+    guard('rotation-round-trip-or-rejected', cr)
+    def ct():
+      tr = {'c': jnp.asarray(xc[:5]), 'r': xj[:3]}
+      try:
+        ro_, sh_ = wh.structured_rotation_pytree(tr, key)
+      except TypeError:
+        return True
+      bk = wh.inverse_structured_rotation_pytree(ro_, key, sh_)
+      return _close(np.asarray(bk['c']).real, xc[:5].real, atol=1e-4) and _close(np.asarray(bk['c']).imag, xc[:5].imag, atol=1e-4) and \
+          _close(bk['r'], xs[:3], atol=1e-4)
+    guard('tree-with-complex-leaf', ct)
+  elif sub == 'fastpath':
+    # size-1 leaves and scalars: the rotation is x -> +-x (the sign is drawn from the key), followed by a SECOND call
+    for nm, x1 in (('scalar', jnp.float32(xs[0])), ('size-1', xj[:1]), ('shape-1x1', xj[:1].reshape(1, 1))):
+      def f(x1=x1):
+        signs = set()
+        for t in range(24):
+          kk = jax.random.PRNGKey(case['key'] + t)
+          r, sh = wh.structured_rotation(x1, kk)
+          b = wh.inverse_structured_rotation(r, kk, sh)
+          if not (r.shape == (1,) and _close(np.abs(np.asarray(r)), np.abs(np.asarray(x1)).reshape(1), 0, 0) and
+                  _close(b, x1, 0, 0) and np.asarray(b).shape == np.asarray(x1).shape):
+            return False
+          signs.add(float(np.sign(np.asarray(r)[0] * np.asarray(x1).reshape(-1)[0])))
+        return signs == {1.0, -1.0}        # 24 keys all giving the same sign: probability 2^-23
+      guard('rotation-of-' + nm + '-flips-sign-with-key', f)
+    def single_leaf_twice():
+      tr = {'only': xj[:1]}
+      r1, s1 = wh.structured_rotation_pytree(tr, key)
+      r2, s2 = wh.structured_rotation_pytree(tr, key)
+      b2 = wh.inverse_structured_rotation_pytree(r2, key, s2)
+      return _close(r1['only'], r2['only'], 0, 0) and _close(b2['only'], xs[:1], 0, 0)
+    guard('single-size-1-leaf-tree-second-call', single_leaf_twice)
+    guard('transform-length-1-and-2', lambda: _close(wh.walsh_hadamard_transform(xj[:1]), xs[:1], 0, 0) and
+          _close(wh.walsh_hadamard_transform(xj[:2]), [xs[0] + xs[1], xs[0] - xs[1]], 0, 0) and
+          _close(wh.walsh_hadamard_transform(xj[:2], small_n=2), [xs[0] + xs[1], xs[0] - xs[1]], 0, 0))
+    guard('single-block-exactly', lambda: _as_ints(wh.walsh_hadamard_transform(xj[:64], small_n=64))[0] == [int(v) for v in ref_fwht(xs[:64].astype(np.int64))])
+  elif sub == 'chunk':
+    # sizes at and around powers of two and multiples of 256 / 1000 / 1024: round trip, padded length, norm
+    sizes = [255, 256, 257, 1000, 1023, 1024, 1025, 4095, 4096, 4097] if case.get('big') else [255, 256, 257, 1023, 1025, 4097]
+    for size in sizes:
+      def f(size=size):
+        x = jnp.asarray(np.resize(xs, size))
+        r, sh = wh.structured_rotation(x, key)
+        b = wh.inverse_structured_rotation(r, key, sh)
+        d = 1 << max(0, (size - 1).bit_length())
+        return (r.shape == (d,) and _close(np.sum(np.asarray(r, np.float64) ** 2), np.sum(np.asarray(x, np.float64) ** 2), rtol=1e-4) and
+                _close(b, x, atol=2e-4))
+      guard(f'size-{size}', f)
   return {'err': None, 'checks': chk}
 
 
@@ -680,7 +818,9 @@ CFGS = {'threefry-nonpartitionable': {'JAX_THREEFRY_PARTITIONABLE': '0'},
         'prng-rbg': {'JAX_DEFAULT_PRNG_IMPL': 'rbg'},
         'x64': {'JAX_ENABLE_X64': '1'},
         'rank-promotion-raise': {'JAX_NUMPY_RANK_PROMOTION': 'raise'},
-        'disable-jit': {'JAX_DISABLE_JIT': '1'}}
+        'disable-jit': {'JAX_DISABLE_JIT': '1'},
+        # determinism across interpreter processes: two workers with different PYTHONHASHSEED must observe the same bits
+        'hashseed': {'PYTHONHASHSEED': '101'}}
 _PROCS = {}
 
 
@@ -717,6 +857,17 @@ def run_G(case):
   if not line:
     return {'ok': False, 'rc': p.returncode, 'n': 0, 'violations': [['worker-failed', f'no result (exit code {p.returncode})', None]]}
   r = json.loads(line[-1][len('CFGRESULT '):])
+  if case['cfg'] == 'hashseed':
+    import os
+    import subprocess
+    import sys
+    env = dict(os.environ, PYTHONHASHSEED='202')
+    worker = os.path.join(os.path.dirname(os.path.abspath(__file__)), 'c11_c18_cfg_worker.py')
+    p2 = subprocess.run([sys.executable, worker, PROP.lower(), str(case['seed'])], env=env, capture_output=True, text=True)
+    l2 = [l for l in p2.stdout.split('\n') if l.startswith('CFGRESULT ')]
+    d2 = json.loads(l2[-1][len('CFGRESULT '):])['digest'] if l2 else None
+    if d2 != r['digest']:
+      r['violations'].append(['not-reproducible-across-processes', f'observations differ between PYTHONHASHSEED=101 and 202 ({r["digest"][:10]} vs {str(d2)[:10]})', None])
   return {'ok': True, 'rc': p.returncode, 'n': r['n'], 'config': r['config'], 'violations': r['violations']}
 
 
@@ -729,8 +880,67 @@ def json_short(c):
   return json.dumps({k: v for k, v in (c or {}).items() if k not in ('x', 'y', 'v')})[:200]
 
 
+# --------------------------------------------------------------------------
+# wave 5: exhaustive small grids, sent to Coq against the translated functions
+
+GRID_BLOCKS = list(range(2, 18)) + [32, 64, 128]
+
+
+def run_Q(case):
+  import jax
+  import jax.numpy as jnp
+  from fedjax.aggregators import walsh_hadamard as wh
+  if case['what'] == 'grid':
+    codes, wrong = [], []
+    with jax.disable_jit():
+      for n in range(1, case['nmax'] + 1):
+        xs = lcg_vec(n, case['seed'])
+        x = jnp.asarray(np.array(xs, np.float32))
+        for b in GRID_BLOCKS:
+          try:
+            y = np.asarray(wh.walsh_hadamard_transform(x, small_n=b))
+          except fw.Hang:
+            raise
+          except Exception:  # pylint: disable=broad-except
+            codes.append(1)
+            continue
+          codes.append(0)
+          yi, ok = _as_ints(y)
+          pow2 = n & (n - 1) == 0
+          if not (ok and pow2 and yi == [int(v) for v in ref_fwht(np.array(xs, np.int64))]):
+            wrong.append([n, b])
+    return {'codes': codes, 'wrong': wrong[:10]}
+  obs = []
+  key = jax.random.PRNGKey(0)
+  for n in case['sizes']:
+    sh = jax.eval_shape(wh.structured_rotation, jax.ShapeDtypeStruct((n,), jnp.float32), key)[0].shape
+    obs.append([n, int(sh[0]) if len(sh) == 1 else -1])
+  return {'pad': obs}
+
+
+def _oracle_Q(case, obs):
+  out = []
+  if case['what'] == 'grid':
+    if obs['wrong']:
+      out.append(('grid.transform-value', f'(n, block) in {obs["wrong"]}: the transform returned something that is not the '
+                  f'Sylvester-Hadamard product (or accepted a length that is not a power of two)'))
+    i = 0
+    for n in range(1, case['nmax'] + 1):
+      for b in GRID_BLOCKS:
+        valid = n & (n - 1) == 0 and b & (b - 1) == 0 and num_dims(exps(n), exps(b)) <= 8
+        if valid and obs['codes'][i] != 0:
+          out.append(('grid.transform-raises', f'valid (n={n}, block={b}) raised'))
+        i += 1
+    return out[:3]
+  for n, d in obs['pad']:
+    want = 1 << max(0, (n - 1).bit_length())
+    if d != want:
+      out.append(('grid.padded-length', f'size {n} is padded to {d}, the next power of two is {want}'))
+  return out[:3]
+
+
 def run(case):
-  return {'G': run_G, 'X': run_X, 'T': run_T, 'H': run_H, 'R': run_R, 'B': run_B, 'P': run_P}[case['kind']](case)
+  return {'Q': run_Q, 'G': run_G, 'X': run_X, 'T': run_T, 'H': run_H, 'R': run_R, 'B': run_B, 'P': run_P}[case['kind']](case)
 
 
 # --------------------------------------------------------------------------
@@ -769,6 +979,8 @@ def oracle(case, obs):
   kind = case['kind']
   if kind == 'G':
     return _oracle_G(case, obs)
+  if kind == 'Q':
+    return _oracle_Q(case, obs)
   if kind == 'T':
     n, block = case['n'], case['block']
     ok, nd = _valid_block(n, block)
@@ -869,6 +1081,10 @@ def encode(case, obs):
   kind = case['kind']
   if kind in ('X', 'G'):
     return None
+  if kind == 'Q':
+    if case['what'] == 'grid':
+      return f'(CQgrid {case["nmax"]}%nat {fw.zlist(GRID_BLOCKS)} {case["seed"]}, OQgrid {fw.zlist(obs["codes"])})'
+    return '(CQpad, OQpad [' + '; '.join(f'({n}, {fw.zlit(d)})' for n, d in obs['pad']) + '])'
   if kind == 'T':
     v, n = case['vec'], case['n']
     if 'fseed' in v:
@@ -930,6 +1146,8 @@ def describe(case, obs):
     return {'kind': 'X.' + case['sub']}
   if case['kind'] == 'G':
     return {'kind': 'G.' + case['cfg'], 'inner_cases': obs.get('n')}
+  if case['kind'] == 'Q':
+    return {'kind': 'Q.' + case['what']}
   return {'kind': case['kind']}
 
 
